@@ -223,6 +223,17 @@ fn fault_space(ctx: &mut Ctx, s: &Sample, p: &mut Prng) {
             probe(ctx, s, &assemble(c1b, c2, &h, s.lay.0), "c3_fold_preserving_change");
         }
     }
+    // the same mask on bytes 4 / 8 / 16 / 24 apart: invisible to a comparison that folds 32- or 64-bit lanes by XOR
+    for offs in [vec![4usize], vec![8], vec![16], vec![24], vec![8, 16, 24], vec![4, 8, 12]] {
+        let mut h = c3.to_vec();
+        let a = p.below(8) as usize;
+        let m = 1 + p.below(255) as u8;
+        h[a] ^= m;
+        for o in offs {
+            h[a + o] ^= m;
+        }
+        probe(ctx, s, &assemble(c1b, c2, &h, s.lay.0), "c3_fold_preserving_change");
+    }
     let other_order = if s.lay.0 == Order::C1C2C3 { Order::C1C3C2 } else { Order::C1C2C3 };
     if c2.len() != 32 || c2 != c3 {
         probe(ctx, s, &assemble(c1b, c2, c3, other_order), "components_in_other_order");
